@@ -343,6 +343,28 @@ def main():
         g.n0 = (len(be.pubvals), len(be.privvals), len(be.constraints))
         state.update(active=forging, k=0)
         rec = dict(forged=forging)
+        watched = []
+
+        def watch(x, depth=0):
+            if depth > 4:
+                return
+            if isinstance(x, (list, tuple)):
+                for y in x:
+                    watch(y, depth + 1)
+            elif isinstance(x, dict):
+                for y in x.values():
+                    watch(y, depth + 1)
+            elif hasattr(x, "arr") and isinstance(getattr(x, "arr", None), list):
+                watch(x.arr, depth + 1)
+            elif hasattr(x, "lc") and not isinstance(x, (int, str)):
+                try:
+                    L = lc_of(x)
+                    watched.append((x, getattr(x, "value", None), getattr(x, "lc", None), dict(L.lc)))
+                except Exception:
+                    pass
+        watch(list(args) + list(kwargs.values()))
+        for nm_ in ("ZERO", "ONE", "ONE_SAFE"):
+            watch(getattr(rt.LinComb, nm_))
         if forging:
             # the adversary is not bound by the library's run-time checks: only the recorded
             # constraints decide (they are re-evaluated independently below)
@@ -366,6 +388,17 @@ def main():
                 c.w.fs[fn_] = [open(fn_, "rb").read()]
                 c.w.io_events.append(("close", fn_))
         rec["files"] = {k: len(v[0]) for k, v in c.w.fs.items()}
+        mutated = []
+        for o, val, lc, coefs in watched:
+            if getattr(o, "value", None) != val or getattr(o, "lc", None) is not lc:
+                mutated.append(type(o).__name__)
+            else:
+                try:
+                    if dict(lc_of(o).lc) != coefs:
+                        mutated.append(type(o).__name__ + ".lc")
+                except Exception:
+                    pass
+        rec["operands_mutated_in_place"] = mutated
         try:
             rec["unsatisfied_constraints"] = all_constraints()
         except Exception as e_:  # noqa  (layer-specific traces may not be evaluable)
@@ -404,6 +437,8 @@ def main():
                 return not any(z3.is_true(z3.simplify(sym.formula(cond))) for exc, cond in raises)
             if rec["outcome"] == "raise":
                 return None
+            if base == "F.operands_not_mutated":
+                return not rec["operands_mutated_in_place"]
             if base == "C.sat_h":
                 return not rec["unsatisfied_constraints"]
             if base == "N.counts":
